@@ -226,7 +226,26 @@ class Machine:
             if isinstance(v, bool):
                 return int(v)
             if v is None:
-                return sym('const:' + (c.get('text') or '')[:60])
+                txt = c.get('text') or ''
+                # a promoted constant (`&['=', '(']`) or a `const ITEM`: what its body returns
+                m = re.fullmatch(r'const (.*)::promoted\[(\d+)\]', txt)
+                kb = None
+                if m:
+                    kb = self.b.facts.bodies.get('%s::{promoted#%s}' % (m.group(1), m.group(2))) or self.b.facts.bodies.get('%s::{promoted#%s}' % (self.b.path, m.group(2)))
+                    if kb is None:
+                        for hp in getattr(self.b.facts, 'spliced', {}):
+                            if m.group(1).endswith(hp.rsplit('::', 1)[-1]):
+                                kb = self.b.facts.bodies.get('%s::{promoted#%s}' % (hp, m.group(2)))
+                elif txt.startswith('const '):
+                    kb = self.b.facts.bodies.get(txt[6:])
+                    if kb is not None and kb.kind != 'const':
+                        kb = None
+                if kb is not None and not kb.loops() and len(kb.blocks) <= 40 and self.depth < 8:
+                    key = ('constval', kb.path)
+                    if key not in self.shared:
+                        self.shared[key] = self.invoke(kb, [])
+                    return self.shared[key]
+                return sym('const:' + txt[:60])
             return v
         p = opplace(o)
         if p is None:
@@ -390,6 +409,8 @@ class Machine:
         m = re.search(r'cmp::Partial(?:Ord|Eq)\b.*::(lt|le|gt|ge|eq|ne)$', path)
         if m and len(args) == 2:
             a, b = self.deref_value(args[0]), self.deref_value(args[1])
+            if any(isinstance(x, dict) and str(x.get('__adt__', '')).startswith('log::') for x in (a, b)):
+                return 0          # `log::Level::X <= max level` of a log macro: logging has no effect on any value; taken as off
             if isinstance(a, (int, float)) and isinstance(b, (int, float)):
                 self.check_const_compare(a, b)
                 return int(CMP[m.group(1)](a, b))
